@@ -19,6 +19,51 @@ CHECKS = {
              "normal form are computed by calling icalendar/vobject directly; SHA-1/MD5 collision-freeness.",
         tech="Lean 4 refinement proof (induction over histories) + differential correspondence + Lean spec monitor",
         ref="5/C01"),
+    "C06": dict(
+        text="Invariant proof: `_scan_uids` is proved exact (after a scan the UID cache is the image of the current "
+             "listing, whatever was scanned before) by induction over the two loops; from it: a UID refusal implies "
+             "another member holds the UID now, an acknowledged write never creates a second holder, uniqueness is an "
+             "invariant of every history, and the answer does not depend on the cache (restart transparency). Tied to "
+             "/repo by differential histories on all four back ends plus a Lean monitor on the implementation trace.",
+        note="correspondence is sampling; UIDs are what icalendar reports for a body (computed by the harness, not by "
+             "xandikos); uniqueness is proved for histories whose uploads are 'coherent' (handler by content type = "
+             "handler by extension, normalisation keeps the UID) — incoherent uploads are exercised by the harness only.",
+        tech="Lean 4 loop-invariant proof of the UID cache + history induction + differential correspondence",
+        ref="5/C06"),
+    "C07": dict(
+        text="Proof that the tree diff behind sync-collection is exact (member reported changed/removed iff it differs/"
+             "vanished; replaying the report on the old state yields the new one; equal states give an empty report; an "
+             "unknown token is an error; issued tokens stay valid as the object store only grows). Tied to /repo by "
+             "histories in which every issued token is queried at every later step.",
+        note="store-level iter_changes is modelled; the HTTP rendering of the report is tied by correspondence at the "
+             "HTTP level; tokens are content-addressed trees (SHA-1 collision-freeness).",
+        tech="Lean 4 algebraic proof of the diff + differential correspondence (all token pairs)",
+        ref="5/C07"),
+    "C08": dict(
+        text="Tag = content-addressed tree: equal tags iff equal versioned contents is proved by map extensionality; "
+             "unchanged by non-acknowledged requests (corollary of the C01 refinement); the harness recomputes the git "
+             "tree hash of the observed entries and a Lean monitor compares all pairs of points of each history.",
+        note="'contents' includes the versioned metadata file (.xandikos), see DESIGN.md 1.4; SHA-1 collision-freeness.",
+        tech="Lean 4 proof over the content-addressed model + all-pairs trace monitor",
+        ref="5/C08"),
+    "C09": dict(
+        text="Invariant proofs by induction over histories: the commit log is append-only (prefix-monotone), a request "
+             "adds exactly one commit iff it changes the stored tree, HEAD's tree equals the contents, and for the tree "
+             "store working tree = index = HEAD after every request. Tied to /repo by walking the real commit chain "
+             "after every step and running git status / git fsck.",
+        note="commit objects are modelled as (tree) entries of a list; parents are observed by the harness walking the "
+             "chain (single parent, no merge), messages/authors/timestamps are not modelled.",
+        tech="Lean 4 invariant proofs + differential correspondence + git CLI audit",
+        ref="5/C09"),
+    "C14": dict(
+        text="Proved on the store model: an invalid body is refused with no state change at all; what is stored is the "
+             "normal form; every member of every reachable state validates; re-uploading a served body is a no-op "
+             "(same ETag, same tree, no commit) given the library facts norm∘norm = norm and UID preservation, which "
+             "are tested on generated bodies, not proved.",
+        note="parser correctness is icalendar's/vobject's; validity/normal form/UID are computed by the harness calling "
+             "the libraries directly, so a change to xandikos' validate()/normalized() shows as a disagreement.",
+        tech="Lean 4 proof parametric in the parser + differential correspondence with library oracle",
+        ref="5/C14"),
 }
 
 NOT_YET = {}
